@@ -66,46 +66,160 @@ def _nproc():
     return max(1, min(16, int(os.environ.get("VMC_PROCS", n))))
 
 
+def _worker_loop(conn):
+    """forked worker: receive (index, job), answer (index, status, payload); None = stop"""
+    while True:
+        try:
+            msg = conn.recv()
+        except EOFError:
+            return
+        if msg is None:
+            return
+        i, job = msg
+        conn.send((i,) + _job_runner(job))
+
+
 def execute(mod, jobs, progress=True):
+    """Run the jobs on up to 16 forked workers.  The code under test is partly native (numba, htslib): a worker that dies
+    (segmentation fault, abort, heap corruption, os._exit) must not hang or kill the run.  Every worker therefore has its
+    own pipe, the parent waits on pipes *and* process sentinels, and a job whose worker died is reported as a violation
+    (the harness itself is pure Python and cannot crash the interpreter) before a replacement worker is forked."""
     global _MOD
     _MOD = mod
     total = Result()
     harness_errors = []
     n = _nproc()
     t0 = time.time()
-    if n == 1 or len(jobs) <= 1:
-        it = map(_job_runner, jobs)
-        pool = None
-    else:
-        ctx = mp.get_context("fork")
-        pool = ctx.Pool(min(n, len(jobs)))
-        it = pool.imap_unordered(_job_runner, jobs, chunksize=1)
     done = 0
     last = t0
-    for status, r, _ in it:
-        done += 1
+
+    def account(status, r):
         if status == "ok":
             total.merge(r)
+        elif r["in_repo"]:
+            total.violation(
+                "exception:%s:%s" % (r["type"], r["where"]),
+                "uncaught %s in repository code at %s: %s" % (r["type"], r["where"], r["msg"]),
+                {"kind": "job", "job": r["job"], "tb": r["tb"]},
+            )
         else:
-            if r["in_repo"]:
-                total.violation(
-                    "exception:%s:%s" % (r["type"], r["where"]),
-                    "uncaught %s in repository code at %s: %s" % (r["type"], r["where"], r["msg"]),
-                    {"kind": "job", "job": r["job"], "tb": r["tb"]},
-                )
-            else:
-                harness_errors.append(r)
+            harness_errors.append(r)
+
+    def tick():
+        nonlocal last
         if progress and time.time() - last > 20:
             last = time.time()
-            print(
-                "  .. %d/%d jobs, %.0fs, evals=%d viol=%d"
-                % (done, len(jobs), last - t0, total.evaluations, total.n_violations),
-                file=sys.stderr,
-                flush=True,
+            print("  .. %d/%d jobs, %.0fs, evals=%d viol=%d" % (done, len(jobs), last - t0, total.evaluations, total.n_violations), file=sys.stderr, flush=True)
+
+    if n == 1 or len(jobs) <= 1 or os.environ.get("VMC_INLINE") == "1":
+        for job in jobs:
+            status, r, _ = _job_runner(job)
+            done += 1
+            account(status, r)
+            tick()
+        return total, harness_errors
+
+    from multiprocessing.connection import wait as mp_wait
+
+    ctx = mp.get_context("fork")
+    job_timeout = float(os.environ.get("VMC_JOB_TIMEOUT", "3000"))
+    workers = {}  # sentinel -> [process, parent_conn, current job index or None, start time]
+
+    def spawn():
+        a, b = ctx.Pipe()
+        p = ctx.Process(target=_worker_loop, args=(b,), daemon=True)
+        p.start()
+        b.close()
+        workers[p.sentinel] = [p, a, None, 0.0]
+        return p.sentinel
+
+    def feed(sent):
+        nonlocal next_job
+        w = workers[sent]
+        if next_job < len(jobs):
+            w[2], w[3] = next_job, time.time()
+            w[1].send((next_job, jobs[next_job]))
+            next_job += 1
+        else:
+            w[2] = None
+            try:
+                w[1].send(None)
+            except (BrokenPipeError, OSError):
+                pass
+
+    def crashed(sent, why):
+        w = workers.pop(sent)
+        idx = w[2]
+        try:
+            w[1].close()
+        except OSError:
+            pass
+        if idx is not None:
+            if why.startswith("signal 9") or why.startswith("no result"):
+                # SIGKILL (out-of-memory killer) or a hang says nothing certain about the code under test: no verdict
+                harness_errors.append({"job": jsonable(jobs[idx]), "type": "WorkerLost", "msg": "worker lost (%s)" % why, "where": "?", "in_repo": False, "tb": ""})
+                return True
+            total.violation(
+                "crash:%s" % why,
+                "the interpreter running this job died (%s): native code under test crashed or corrupted memory" % why,
+                {"kind": "job", "job": jsonable(jobs[idx])},
             )
-    if pool is not None:
-        pool.close()
-        pool.join()
+            return True
+        return False
+
+    next_job = 0
+    for _ in range(min(n, len(jobs))):
+        feed(spawn())
+    while done < len(jobs):
+        conns = {w[1]: s for s, w in workers.items() if w[2] is not None}
+        if not conns:
+            break
+        ready = mp_wait(list(conns) + [s for s, w in workers.items() if w[2] is not None], timeout=5.0)
+        handled = set()
+        for obj in ready:
+            sent = conns.get(obj, obj)
+            if sent in handled or sent not in workers:
+                continue
+            handled.add(sent)
+            w = workers[sent]
+            got = None
+            try:
+                if w[1].poll():
+                    got = w[1].recv()
+            except (EOFError, OSError):
+                got = None
+            if got is not None:
+                _, status, r, _ = got
+                done += 1
+                account(status, r)
+                feed(sent)
+            elif not w[0].is_alive():
+                w[0].join()
+                code = w[0].exitcode
+                why = "signal %d" % -code if code is not None and code < 0 else "exit status %r" % code
+                if crashed(sent, why):
+                    done += 1
+                    if next_job < len(jobs):
+                        feed(spawn())
+        now = time.time()
+        for sent, w in list(workers.items()):
+            if w[2] is not None and now - w[3] > job_timeout:
+                w[0].kill()
+                w[0].join()
+                if crashed(sent, "no result after %.0f s (hang)" % job_timeout):
+                    done += 1
+                    if next_job < len(jobs):
+                        feed(spawn())
+        tick()
+    for sent, w in list(workers.items()):
+        try:
+            w[1].send(None)
+        except (BrokenPipeError, OSError):
+            pass
+    for sent, w in list(workers.items()):
+        w[0].join(timeout=10)
+        if w[0].is_alive():
+            w[0].kill()
     return total, harness_errors
 
 
@@ -238,13 +352,17 @@ def run_check(pid, tier, seed, replay=None):
         print("HARNESS-ERROR property=%s nothing was explored" % pid)
         return 2
     if distinct:
-        # replay the first violation from its file in a fresh interpreter before trusting it: the same case must fail again
+        # a native crash (SIGSEGV / SIGABRT from corrupted memory) was observed as a fact and need not recur at the same job;
+        # every other violation is replayed from its file in a fresh interpreter before it is trusted: the same case must fail again
+        distinct.sort(key=lambda v: v["key"].startswith("crash:"))
         if os.environ.get("VMC_NO_REPLAY_CONFIRM") != "1":
             p0 = _replay_file(pid, distinct[0])
             try:
                 rp = subprocess.run([str(VERIF / "check"), pid, "--replay", str(p0)], capture_output=True, text=True, timeout=900,
                                     env=dict(os.environ, VMC_BOOTSTRAPPED="0", VMC_NO_REPLAY_CONFIRM="1"))
-                if rp.returncode == 0:
+                if rp.returncode == 0 and distinct[0]["key"].startswith("crash:"):
+                    print("the crashing job did not crash again when replayed from %s (memory corruption need not recur); reported as observed" % p0)
+                elif rp.returncode == 0:
                     print("HARNESS-ERROR property=%s violation %s did not reproduce when replayed from %s (nondeterminism the harness does not own)" % (pid, distinct[0]["key"], p0))
                     return 2
                 print("replay of the first violation reproduced it (exit %d)" % rp.returncode)
